@@ -3,6 +3,7 @@ from __future__ import annotations
 
 import hashlib
 import json
+import re
 from collections import Counter
 from typing import Any, Dict, List, Optional
 
@@ -17,6 +18,7 @@ class StepCapExceeded(Exception):
     """A run exceeded its step cap (reported by the property as a liveness violation)."""
 
 
+_ADDR = re.compile(r'0x[0-9a-fA-F]{6,}')
 _RESERVED = frozenset(('seq', 'vt', 'node', 'kind'))
 
 
@@ -112,6 +114,7 @@ class World:
 
     # -- violations / counters -------------------------------------------------
     def violate(self, clause: str, message: str, **ctx: Any) -> None:
+        message = _ADDR.sub('0x..', message)   # object addresses differ between interpreters
         self.violations.append(Violation(self.prop, clause, message, ctx, self.seq))
         self.rec('oracle', 'violation', clause=clause, message=message)
 
